@@ -459,6 +459,10 @@ var tlCheck = &core.Check{Name: "c08/tl", Quick: 30000, Thorough: 2000000, Hang:
 		c.Class("decode error")
 	} else {
 		c.Class("decoded")
+		// a value the decoder handed out must be usable: serialising it again may fail, not panic
+		if perr := core.Protect(func() error { tl.Marshal(out.Elem().Interface()); return nil }); perr != nil {
+			return fmt.Errorf("tl.Marshal of a value decoded into %s panicked: %v\ninput %x", name, perr, trunc(data))
+		}
 	}
 	// the request decoder table sits on the same bytes
 	if perr := core.Protect(func() error { liteclient.LiteapiRequestDecoder(data); return nil }); perr != nil {
